@@ -71,6 +71,8 @@ pub struct Window {
     pub close_t: u64,
     pub slot: u32,
     pub cache_only: bool,
+    /// "" (still open) | "stop" | "replaced" | "shutdown" | "timeout"
+    pub closed_by: &'static str,
 }
 
 pub fn browse_windows(scn: &Scenario, tr: &Trace, d: usize) -> Vec<Window> {
@@ -91,17 +93,19 @@ pub fn browse_windows(scn: &Scenario, tr: &Trace, d: usize) -> Vec<Window> {
                 if let Some(mut w) = open.remove(ty) {
                     w.close_step = step;
                     w.close_t = t;
+                    w.closed_by = "replaced";
                     out.push(w);
                 }
                 open.insert(
                     ty.clone(),
-                    Window { key: ty.clone(), open_step: step, close_step: last_step, open_t: t, close_t: end_t, slot: *slot, cache_only },
+                    Window { key: ty.clone(), open_step: step, close_step: last_step, open_t: t, close_t: end_t, slot: *slot, cache_only, closed_by: "" },
                 );
             }
             Op::StopBrowse { ty, .. } => {
                 if let Some(mut w) = open.remove(ty) {
                     w.close_step = step;
                     w.close_t = t;
+                    w.closed_by = "stop";
                     out.push(w);
                 }
             }
@@ -109,6 +113,7 @@ pub fn browse_windows(scn: &Scenario, tr: &Trace, d: usize) -> Vec<Window> {
                 for (_, mut w) in std::mem::take(&mut open) {
                     w.close_step = step;
                     w.close_t = t;
+                    w.closed_by = "shutdown";
                     out.push(w);
                 }
             }
@@ -134,30 +139,67 @@ pub fn host_windows(scn: &Scenario, tr: &Trace, d: usize) -> Vec<Window> {
         match &scn.ops[a.op].op {
             Op::ResolveHost { host, slot, timeout, .. } => {
                 let k = host.to_lowercase();
-                if let Some((mut w, _)) = open.remove(&k) {
-                    w.close_step = step;
-                    w.close_t = t;
+                if let Some((mut w, dl)) = open.remove(&k) {
+                    // already ended by its timeout?
+                    match dl {
+                        Some(dl) if dl <= t => {
+                            if let Some(s) = tr.steps.iter().find(|s| s.d == d && s.t >= dl) {
+                                w.close_step = s.idx;
+                                w.close_t = dl;
+                                w.closed_by = "timeout";
+                            }
+                        }
+                        _ => {
+                            w.close_step = step;
+                            w.close_t = t;
+                            w.closed_by = "replaced";
+                        }
+                    }
                     out.push(w);
                 }
                 open.insert(
                     k.clone(),
                     (
-                        Window { key: k, open_step: step, close_step: last_step, open_t: t, close_t: end_t, slot: *slot, cache_only: false },
+                        Window { key: k, open_step: step, close_step: last_step, open_t: t, close_t: end_t, slot: *slot, cache_only: false, closed_by: "" },
                         timeout.map(|x| t + x),
                     ),
                 );
             }
             Op::StopResolveHost { host, .. } => {
-                if let Some((mut w, _)) = open.remove(&host.to_lowercase()) {
-                    w.close_step = step;
-                    w.close_t = t;
+                if let Some((mut w, dl)) = open.remove(&host.to_lowercase()) {
+                    match dl {
+                        Some(dl) if dl <= t => {
+                            if let Some(s) = tr.steps.iter().find(|s| s.d == d && s.t >= dl) {
+                                w.close_step = s.idx;
+                                w.close_t = dl;
+                                w.closed_by = "timeout";
+                            }
+                        }
+                        _ => {
+                            w.close_step = step;
+                            w.close_t = t;
+                            w.closed_by = "stop";
+                        }
+                    }
                     out.push(w);
                 }
             }
             Op::Shutdown { .. } => {
-                for (_, (mut w, _)) in std::mem::take(&mut open) {
-                    w.close_step = step;
-                    w.close_t = t;
+                for (_, (mut w, dl)) in std::mem::take(&mut open) {
+                    match dl {
+                        Some(dl) if dl <= t => {
+                            if let Some(s) = tr.steps.iter().find(|s| s.d == d && s.t >= dl) {
+                                w.close_step = s.idx;
+                                w.close_t = dl;
+                                w.closed_by = "timeout";
+                            }
+                        }
+                        _ => {
+                            w.close_step = step;
+                            w.close_t = t;
+                            w.closed_by = "shutdown";
+                        }
+                    }
                     out.push(w);
                 }
             }
@@ -168,8 +210,9 @@ pub fn host_windows(scn: &Scenario, tr: &Trace, d: usize) -> Vec<Window> {
         if let Some(dl) = dl {
             // closes by timeout: at the first step at or after the deadline
             if let Some(s) = tr.steps.iter().find(|s| s.d == d && s.t >= dl) {
-                w.close_step = s.idx.saturating_sub(1).max(w.open_step);
+                w.close_step = s.idx;
                 w.close_t = dl;
+                w.closed_by = "timeout";
             }
         }
         out.push(w);
